@@ -355,6 +355,7 @@ func main() {
 	if traceW != nil {
 		traceW.Flush()
 	}
+	runDeepPart(r)
 	r.Finish(report.Coverage{
 		States:      int64(len(visited)),
 		Transitions: transitions,
